@@ -744,10 +744,15 @@ def main(run):
             run.broke("correspondence", "a pragma `if` clause with a size threshold (%s) in %s has no scenario built on both sides of it" % (t["condition"], fn), t)
     if need_atoms > 400 or need_pairs > 250000:
         run.broke("correspondence", "size thresholds of the pragma inventory are too large for a scenario beyond them", thresholds)
+    import time as _time
+    _t = _time.time()
     nbig = large_distribute(run, rng, cap, shim_of, need_atoms)
+    run.cov.setdefault("timing_s", {})["large_distribute"] = round(_time.time() - _t, 1); _t = _time.time()
     large_smallest_vectors(run, rng, shim_of, need_pairs)
+    run.cov["timing_s"]["large_smallest_vectors"] = round(_time.time() - _t, 1); _t = _time.time()
     shim_omp = common._STATE["shim"]
     tie_and_boundary_probes(run, rng, thorough)
+    run.cov["timing_s"]["tie_and_boundary_probes"] = round(_time.time() - _t, 1)
     # ---- NAC kernels with non-symmetric Born tensors (captured as well)
     shim_omp.trace = cap
     nac_lowsym_probes(run, rng, thorough)
